@@ -486,6 +486,39 @@ func builderCmd(args []string) error {
 			emit(feesEvent("gen-signed", tx2, q))
 		}
 	}
+	if want["fees"] {
+		// fee = floor(bytes * sat / per): sizes on every exact multiple of the denominator (and one byte to each
+		// side), for standard and for data bytes, under rates that are not binary fractions
+		for _, q := range []quote{{29, 100, 57, 100}, {1, 3, 1, 7}, {7, 10, 3, 10}, {5, 100, 9, 10}, {333, 1000, 1, 6}} {
+			for k := 1; k <= 16; k++ {
+				for d := -1; d <= 1; d++ {
+					// standard bytes: one unsigned P2PKH input (41) + one filler output
+					if n := q.sb*k + d; n >= 70 && n < 4000 {
+						tx := bt.NewTx()
+						addInput(tx, 1, 0, 1000000, p2pkhScript(1))
+						body := n - (4 + 1 + 41 + 1 + 8 + 4)
+						l := body - 1
+						if l >= 253 {
+							l = body - 3
+						}
+						if l >= 0 && (l < 253 || l >= 253) && 8+len(bt.VarInt(uint64(l)).Bytes())+l == body+8 {
+							tx.AddOutput(&bt.Output{Satoshis: 1, LockingScript: fillerScript(l, false)})
+							if tx.Size() == n {
+								emit(feesEvent("gen-multiple", tx, q))
+							}
+						}
+					}
+					// data bytes
+					if n := q.db*k + d; n >= 2 && n < 4000 {
+						tx := bt.NewTx()
+						addInput(tx, 1, 0, 1000000, p2pkhScript(1))
+						tx.AddOutput(&bt.Output{Satoshis: 0, LockingScript: fillerScript(n, true)})
+						emit(feesEvent("gen-multiple", tx, q))
+					}
+				}
+			}
+		}
+	}
 	if want["change"] {
 		addrKey, _ := bec.NewPrivateKey(bec.S256())
 		addr, _ := bscript.NewAddressFromPublicKey(addrKey.PubKey(), true)
